@@ -32,7 +32,7 @@ from ..c12_common import quiet, flat_obs, diff_obs, fmt_diff, run_tasks, collect
 from ..oracle_lp import LP
 
 KNOWN_KEYS = set()
-FLAVOURS = ("homogeneous", "forced", "fixed", "fixed0", "cons", "consvar", "all", "conseq_neg", "conseq_pos")
+FLAVOURS = ("homogeneous", "forced", "fixed", "fixed0", "cons", "consvar", "all", "conseq_neg", "conseq_pos", "consvar_mid")
 
 
 # ------------------------------------------------------------------------------------------------ models
@@ -89,6 +89,18 @@ def build(spec):
         uv = m.problem.Variable("uv", lb=0, ub=5)
         c3 = m.problem.Constraint(a.flux_expression + uv, lb=-3, ub=4, name="uc_with_variable")
         m.add_cons_vars([uv, c3])
+        cons.append(("uc_with_variable", {a.id: 1.0}, "uv", 1.0, -3.0, 4.0))
+    if flavour == "consvar_mid":
+        # the extra variable sits IN FRONT OF a reaction's variables in the solver (auxiliary variable added, then one more reaction):
+        # the forward / reverse index maps of the samplers must come from the variables' positions, not from 2 * i, 2 * i + 1
+        # (added after the seeded change C16-hrsampler-positional-variable-indices was missed: every generated model had its
+        # extra variables behind all reaction variables)
+        a, last = rs[0], rs[-1]
+        m.remove_reactions([last])
+        uv = m.problem.Variable("uv", lb=0, ub=5)
+        c3 = m.problem.Constraint(a.flux_expression + uv, lb=-3, ub=4, name="uc_with_variable")
+        m.add_cons_vars([uv, c3])
+        m.add_reactions([last])
         cons.append(("uc_with_variable", {a.id: 1.0}, "uv", 1.0, -3.0, 4.0))
     return m, cons
 
